@@ -12,6 +12,8 @@ From C01 Require Gen_One Gen_P4 Gen_P4A P4_Slot P4_Bucket LimP4Ops Glue.
 From C01 Require OpenN1Ops Gen_OpenN1_ops Open2N2Ops Gen_Open2N2_ops.
 From C01 Require IterMachine KindFacts Gen_UnlimP Gen_LimP1 Gen_LimP1t Gen_LimP1f Gen_Lim4 Gen_LimP Open8Match.
 From C01 Require Gen_LimP4 Gen_Open2N2 Gen_Open2N2w Gen_OpenN1.
+From C01 Require Gen_HashSetGrow GrowLoops TableN1 TableN1Inst Gen_LimP1_ops LimP1Ops.
+From MomoCommon Require GenPrelude.
 Import ListNotations.
 Local Open Scope Z_scope.
 
@@ -553,3 +555,107 @@ Theorem C01_open2n2_isfull_glue :
     Gen_Open2N2_ops.IsFull st sh hp = isFull B maxCount false b.
 Proof. exact Glue.o2_isfull_glue. Qed.
 Print Assumptions C01_open2n2_isfull_glue.
+
+(* HashSet::Reserve / pvAddGrow size loops, REGENERATED from HashSet.h (Gen_HashSetGrow): they end for EVERY requested capacity
+   (with a size or with length_error; never out of fuel -- the f76c2d4 bound) and a delivered size is the hand model's reserve_log *)
+Theorem reserve_loop_terminates : forall mc calcCapacity cap ht nc nl, 0 <= nl <= 63 ->
+  Gen_HashSetGrow.Reserve_loop0 mc (fun bc _ => calcCapacity bc) Gen_HashSetGrow.fuel_of_Reserve cap ht nc nl <> GenPrelude.Fuel /\
+  Gen_HashSetGrow.Reserve_loop0 mc (fun bc _ => calcCapacity bc) Gen_HashSetGrow.fuel_of_Reserve cap ht nc nl <> GenPrelude.Stuck.
+Proof. exact GrowLoops.reserve_loop_terminates. Qed.
+Print Assumptions reserve_loop_terminates.
+
+Theorem reserve_loop_agrees : forall mc calcCapacity cap ht nc nl c' nl', 0 <= nl <= 63 ->
+  Gen_HashSetGrow.Reserve_loop0 mc (fun bc _ => calcCapacity bc) Gen_HashSetGrow.fuel_of_Reserve cap ht nc nl = GenPrelude.Ok (None, (c', nl')) ->
+  HashModel.reserve_log calcCapacity 64 nl cap = Some nl' /\ c' = calcCapacity (2 ^ nl').
+Proof. exact GrowLoops.reserve_loop_agrees. Qed.
+Print Assumptions reserve_loop_agrees.
+
+Theorem addgrow_loop_terminates_agrees : forall mc calcCapacity ht cnt nc nl, 0 <= nl <= 63 ->
+  match Gen_HashSetGrow.pvAddGrow_loop0 mc (fun bc _ => calcCapacity bc) Gen_HashSetGrow.fuel_of_pvAddGrow ht cnt nc nl with
+  | GenPrelude.Ok (None, (c', nl')) => HashModel.reserve_log calcCapacity 64 nl (cnt + 1) = Some nl' /\ c' = calcCapacity (2 ^ nl')
+  | GenPrelude.Exn => True
+  | _ => False
+  end.
+Proof. exact GrowLoops.addgrow_loop_terminates_agrees. Qed.
+Print Assumptions addgrow_loop_terminates_agrees.
+
+(* table level, OpenN1 / Open8: ONE GENERATION AS AN ARRAY OF BYTE BUCKETS (bt : bucket index -> mData bytes).  pvFind's probe loop
+   (gtfind / gprobe_loop), pvAddNogrow's loop + AddCrt + UpdateMaxProbe (gtadd / gadd_loop) and Remove (gtremove) are run on the
+   REGENERATED leaves Gen_OpenN1_ops.IsFull / WasFull / AddCrt / Remove, Gen_OpenN1.GetMaxProbe / UpdateMaxProbe, ptCalcShortHash and
+   do what the hand model's tfind / tadd / tremove do on list buckets under the representation `trep`, which they preserve *)
+Theorem C01_openn1_table_find_refines :
+  forall h : Z -> Z, (forall k, 0 <= h k < 2 ^ 64) -> forall maxCount reverse, 1 <= maxCount <= 7 ->
+  forall (start : Z -> Z -> Z) (next : Z -> Z -> Z -> Z) maxLog,
+  (forall hc log, 0 <= log <= maxLog -> 0 <= start hc (2 ^ log) < 2 ^ log) ->
+  (forall i log p, 0 <= log <= maxLog -> 0 <= i < 2 ^ log -> 0 <= next i (2 ^ log) p < 2 ^ log) ->
+  forall (t : table BS) (bt : TableN1.bytes) k, TableN1.trep h maxCount reverse maxLog t bt ->
+    TableN1.gtfind h maxCount reverse start next t bt k = Some (tfind BS bs0 (decode_fn (TableN1.kind maxCount)) h true start next t k).
+Proof. exact TableN1.gtfind_refines. Qed.
+Print Assumptions C01_openn1_table_find_refines.
+
+Theorem C01_openn1_table_add_refines :
+  forall h : Z -> Z, (forall k, 0 <= h k < 2 ^ 64) -> forall maxCount reverse, 1 <= maxCount <= 7 ->
+  forall wfThr (start : Z -> Z -> Z) (next : Z -> Z -> Z -> Z) maxLog, maxLog <= 63 ->
+  (forall hc log, 0 <= log <= maxLog -> 0 <= start hc (2 ^ log) < 2 ^ log) ->
+  (forall i log p, 0 <= log <= maxLog -> 0 <= i < 2 ^ log -> 0 <= next i (2 ^ log) p < 2 ^ log) ->
+  forall (t : table BS) (bt : TableN1.bytes) (kv : item), TableN1.trep h maxCount reverse maxLog t bt ->
+    match tadd BS bs0 (upd_fn (TableN1.kind maxCount)) h maxCount false true wfThr start next t kv with
+    | Some t' => exists idx bt', TableN1.gtadd maxCount reverse start next (tlog t) bt (h (fst kv)) = GenPrelude.Ok (Some (idx, bt')) /\
+                   TableN1.trep h maxCount reverse maxLog t' bt' /\ In kv (items (getb BS bs0 true t' idx)) /\ 0 <= idx < 2 ^ tlog t
+    | None => TableN1.gtadd maxCount reverse start next (tlog t) bt (h (fst kv)) = GenPrelude.Ok None
+    end.
+Proof. exact TableN1.gtadd_refines. Qed.
+Print Assumptions C01_openn1_table_add_refines.
+
+Theorem C01_openn1_table_remove_refines :
+  forall (h : Z -> Z) maxCount reverse, 1 <= maxCount <= 7 -> forall maxLog (t : table BS) (bt : TableN1.bytes) idx pos,
+    TableN1.trep h maxCount reverse maxLog t bt -> 0 <= idx < 2 ^ tlog t -> (pos < length (items (getb BS bs0 true t idx)))%nat ->
+    exists bt', TableN1.gtremove maxCount reverse bt idx pos = GenPrelude.Ok bt' /\ TableN1.trep h maxCount reverse maxLog (tremove BS bs0 true t idx pos) bt'.
+Proof. exact TableN1.gtremove_refines. Qed.
+Print Assumptions C01_openn1_table_remove_refines.
+
+(* ... along EVERY history of insertions / removals of one generation (2^0 .. 2^40 buckets, regenerated start / next index functions),
+   starting from Clear()ed buckets: the byte generation never asserts / runs out of fuel, stays in `trep`, and every search on the bytes
+   gives the hand model's answer *)
+Theorem C01_openn1_generation_bytes_all_histories :
+  forall (h : Z -> Z) maxCount reverse wfThr probing log d0 os t k,
+  (forall k, 0 <= h k < 2 ^ 64) -> 1 <= maxCount <= 7 -> 0 <= log <= max_log ->
+  TableN1.hrun h maxCount wfThr start_fn (next_fn probing) (newTable BS bs0 true log) os = Some t ->
+  exists bt, TableN1.brun h maxCount reverse start_fn (next_fn probing) log (fun _ => Gen_OpenN1_ops.pvSetEmpty maxCount d0) os = GenPrelude.Ok (Some bt) /\
+             TableN1.trep h maxCount reverse max_log t bt /\
+             TableN1.gtfind h maxCount reverse start_fn (next_fn probing) t bt k =
+               Some (tfind BS bs0 (decode_fn (TableN1.kind maxCount)) h true start_fn (next_fn probing) t k).
+Proof. exact TableN1Inst.momo_openn1_generation_bytes. Qed.
+Print Assumptions C01_openn1_generation_bytes_all_histories.
+
+(* chained kind BucketLimP1 (items in a pool block behind a pointer): AddCrt / Remove / pvSet / IsFull / WasFull REGENERATED (Gen_LimP1_ops;
+   maxCount and skipFirstMemPool symbolic, pointer = scalar, pool block = fresh value, item construction / relocation calls skipped):
+   the state invariant J, append at position count, count - 1 on Remove, WasFull rule = the hand model's (wf0, wfThr), sticky under Remove *)
+Theorem C01_limp1_count_isfull : forall skip maxCount, 1 <= maxCount <= 15 -> forall st ptr n, LimP1Ops.J skip maxCount st ptr n ->
+  Gen_LimP1_ops.pvGetCount st ptr = n /\ (Gen_LimP1_ops.IsFull maxCount st ptr = true <-> n = maxCount).
+Proof. exact LimP1Ops.lp1_count_isfull. Qed.
+Print Assumptions C01_limp1_count_isfull.
+
+Theorem C01_limp1_init : forall skip maxCount, 1 <= maxCount <= 15 -> forall st0 ptr0,
+  let '(st, ptr) := Gen_LimP1_ops.pvSet st0 ptr0 0 (Gen_LimP1_ops.pvGetMemPoolIndex_of skip 1) 0 in
+  LimP1Ops.J skip maxCount st ptr 0 /\
+  Gen_LimP1_ops.WasFull skip maxCount st ptr = (Gen_LimP1_ops.pvGetMemPoolIndex_of skip 1 =? Gen_LimP1_ops.pvGetMemPoolIndex_of skip maxCount).
+Proof. exact LimP1Ops.lp1_init. Qed.
+Print Assumptions C01_limp1_init.
+
+Theorem C01_limp1_addcrt : forall skip maxCount, 1 <= maxCount <= 15 -> forall st ptr n mem,
+  LimP1Ops.J skip maxCount st ptr n -> n < maxCount -> mem <> 0 ->
+  exists pos st' ptr', Gen_LimP1_ops.AddCrt skip st ptr mem mem = GenPrelude.Ok (pos, st', ptr') /\ LimP1Ops.J skip maxCount st' ptr' (n + 1) /\
+    pos = ptr' + n /\ (ptr' = ptr \/ ptr' = mem) /\
+    Gen_LimP1_ops.WasFull skip maxCount st' ptr' =
+      orb (Gen_LimP1_ops.WasFull skip maxCount st ptr) (Gen_LimP1_ops.pvGetMemPoolIndex_of skip (n + 1) =? Gen_LimP1_ops.pvGetMemPoolIndex_of skip maxCount).
+Proof. exact LimP1Ops.lp1_addcrt. Qed.
+Print Assumptions C01_limp1_addcrt.
+
+Theorem C01_limp1_remove : forall skip maxCount, 1 <= maxCount <= 15 -> forall st ptr n iter,
+  LimP1Ops.J skip maxCount st ptr n -> 1 <= n ->
+  exists r st' ptr', Gen_LimP1_ops.Remove skip maxCount st ptr iter = GenPrelude.Ok (r, st', ptr') /\ LimP1Ops.J skip maxCount st' ptr' (n - 1) /\
+    Gen_LimP1_ops.WasFull skip maxCount st' ptr' = Gen_LimP1_ops.WasFull skip maxCount st ptr /\
+    (1 < n -> ptr' = ptr /\ r = iter) /\ (n = 1 -> ptr' = 0 /\ r = 0).
+Proof. exact LimP1Ops.lp1_remove. Qed.
+Print Assumptions C01_limp1_remove.
